@@ -58,21 +58,37 @@ def main(argv):
     ver['suite'] = ob.strip().splitlines()[-1] if ob.strip() else ''
     ver['suite_ok'] = rcb == 0
     checks = {}
+    # run the checks against /repo's HEAD plus the change, not against the
+    # author's worktree: its base may predate later repairs, and a regression
+    # replay of a defect still open there would be counted as catching the
+    # change
+    head_wt = '/tmp/seeded-head-%d' % os.getpid()
+    sh('git -C /repo worktree remove --force %s' % head_wt)
+    rc_wt, o_wt = sh('git -C /repo worktree add --detach %s HEAD' % head_wt)
+    rc_ap, o_ap = sh('git apply %s' % pfile, cwd=head_wt) if rc_wt == 0 \
+        else (1, o_wt)
+    check_tree = head_wt if rc_ap == 0 else wt
+    ver['checked_on'] = ('HEAD of /repo + patch' if rc_ap == 0 else
+                         'author worktree (patch does not apply to HEAD)')
     for i in ids:
-        env = dict(os.environ, VV_REPO=wt, VERIF_SEED='1')
+        env = dict(os.environ, VV_REPO=check_tree, VERIF_SEED='1')
         rc, o = sh('./check %s quick' % i, cwd=VERIF, env=env)
         lines = [l for l in o.splitlines() if not l.startswith('KNOWN-FINDING')]
         checks[i] = {'exit': rc,
                      'verdict': {0: 'missed', 1: 'caught'}.get(rc, 'harness-error'),
                      'report': [l for l in lines if l.strip()][:3]}
         shutil.rmtree(os.path.join(VERIF, 'found', i), ignore_errors=True)
+    sh('git -C /repo worktree remove --force %s' % head_wt)
+    shutil.rmtree(head_wt, ignore_errors=True)
+    sh('git -C /repo worktree prune')
     ver['checks'] = checks
     meta['breaks_property'] = pid
     meta['confirmed'] = ver
     meta['how_checked'] = ('scratch worktree of /repo with the change applied; '
                            'demo.py run with and without the change; '
                            'tools/baseline.sh on the worktree; ./check <ID> quick '
-                           'with VV_REPO=<worktree>, VERIF_SEED=1')
+                           'with VV_REPO=<scratch worktree of /repo HEAD + the '
+                           'patch>, VERIF_SEED=1')
     json.dump(meta, open(os.path.join(dest, 'meta.json'), 'w'), indent=1)
     ok = rc1 == 1 and rc0 == 0 and rcb == 0
     print('%s: demo with/without = %d/%d, suite %s, checks %s%s' % (
